@@ -1,5 +1,7 @@
 import GambitV.Gen.PyMatching
 import GambitV.Gen.PyLocate
+import GambitV.Gen.PyDmatCsv
+import GambitV.Model.Csv
 import GambitV.Gen.PySeqFiles
 import GambitV.Gen.PyAncestors
 import GambitV.Gen.PyFindMatches
@@ -151,6 +153,14 @@ def seqFiles (pos : List (List Char)) (lines : Option (List (List Char))) (ldir 
     | .raised e => "!" ++ e.name
     | .fuelOut => "!fuel"
   cmp "get_sequence_files" Gen.get_sequence_files.untranslatable g real
+
+/-- `dump_dmat_csv` generated from the current source (the rows it hands to the csv writer, written in the default dialect) against the real file -/
+def dmatCsv (rowIds colIds : List (List Char)) (cells : List (List UInt32)) (real : List Char) : Option String :=
+  let g := match Gen.dump_dmat_csv () cells rowIds colIds none "0.4f".toList with
+    | .ok rows => String.ofList (writeCsv ['\r', '\n'] rows)
+    | .raised e => "!" ++ e.name
+    | .fuelOut => "!fuel"
+  cmp "dump_dmat_csv" Gen.dump_dmat_csv.untranslatable g (String.ofList real)
 
 /-- `Taxon.ancestors(incself)` generated from the current source against the real method -/
 def taxonAncestors (F : Forest) (t : Nat) (inc : Bool) (real : String) : Option String :=
